@@ -11,7 +11,7 @@ use serde_json::{json, Value};
 pub static ENGINE: Engine = Engine {
     prop: "C17",
     level: "exploration",
-    rule: "the real sudoku_gen binary. r=1: every puzzle text <= 3 characters over {1 . x space newline}. r=2: the empty puzzle and EVERY pattern of <= 2 givens (all cells x all digits, incl. contradictory pairs), each in five layouts (one line, 4 lines, spaces between cells, Windows line endings, tabs) with blanks spelled . x _, plus short and over-long texts: the models of the emitted formula, enumerated exhaustively by the constraint-DFS enumerator over its 64 variables, must be in bijection with the valid completed 4x4 grids (brute force: 288) that keep the givens, each model setting exactly one _c_is_d per cell. r=3 (24 single-given puzzles at the last rows, the completed grid, classic puzzles), r=4 and r=5: the multiset of `[..] = 1` conjuncts equals the independently generated family {cell, row x digit, column x digit, box x digit}, hint literals equal the givens, three valid grids satisfy the formula and ALL their single-cell changes and in-row swaps are rejected. distinct = distinct (root, puzzle text)",
+    rule: "the real sudoku_gen binary. r=1: every puzzle text <= 3 characters over {1 . x space newline}. r=2: the empty puzzle and EVERY pattern of <= 2 givens (all cells x all digits, incl. contradictory pairs), each in five layouts (one line, 4 lines, spaces between cells, Windows line endings, tabs) with blanks spelled . x _, plus short and over-long texts: the models of the emitted formula, enumerated exhaustively by the constraint-DFS enumerator over its 64 variables, must be in bijection with the valid completed 4x4 grids (brute force: 288) that keep the givens, each model setting exactly one _c_is_d per cell. r=3 (24 single-given puzzles at the last rows, the completed grid, classic puzzles), r=4 and r=5: the multiset of `[..] = 1` conjuncts equals the independently generated family {cell, row x digit, column x digit, box x digit}, hint literals equal the givens, three valid grids satisfy the formula and ALL their single-cell changes and in-row swaps are rejected. Every case goes through one of three channels (puzzle on stdin / as INPUT file / INPUT file and an existing, longer OUTPUT file whose name has a blank and a quote), rotated so that every layout meets every channel; at r = 4, 5 also texts whose blanks are letters and punctuation. distinct = distinct (root, puzzle text)",
     assumptions: &["reference semantics (harness/src/puzzles.rs); givens are digits 1..r^2, every other non-whitespace character is a blank", "exact model sets for r <= 2; structural exactness plus near-miss rejection for r = 3"],
     max_shards: 64,
     run,
@@ -20,8 +20,13 @@ pub static ENGINE: Engine = Engine {
 
 const TAG: &str = "C17";
 
+thread_local! {
+    /// channel of the case in progress (see cli::run_gen): stdin / INPUT file / INPUT and OUTPUT files
+    static CHANNEL: std::cell::Cell<usize> = const { std::cell::Cell::new(0) };
+}
+
 fn generate(r: usize, puzzle: &str) -> Result<String, String> {
-    let g = run_bin("sudoku_gen", &["-r".to_string(), r.to_string()], Some(puzzle.as_bytes()), &[]);
+    let g = crate::cli::run_gen("sudoku_gen", &["-r".to_string(), r.to_string()], puzzle.as_bytes(), true, CHANNEL.with(|c| c.get()));
     if !g.ok() {
         return Err(format!("sudoku_gen failed: {} {}", g.describe(), g.err_tail()));
     }
@@ -40,7 +45,7 @@ fn cell_var(c: usize, d: usize) -> String {
 }
 
 fn case(r: usize, puzzle: &str) -> Value {
-    json!({"part": "puzzle", "root": r, "puzzle": puzzle})
+    json!({"part": "puzzle", "root": r, "puzzle": puzzle, "channel": CHANNEL.with(|c| c.get())})
 }
 
 fn check_exact(ctx: &mut Ctx, r: usize, puzzle: &str, grids: &[Vec<u8>]) {
@@ -260,6 +265,7 @@ fn run(ctx: &mut Ctx) {
         for p in todo {
             idx += 1;
             if ctx.mine(idx) {
+                CHANNEL.with(|c| c.set((idx % 3) as usize));
                 check_exact(ctx, 1, &p, &g1);
             }
         }
@@ -287,9 +293,11 @@ fn run(ctx: &mut Ctx) {
         let ls = layouts(p, blank);
         // quick: one layout per pattern (cycling), thorough: all three
         let pick: Vec<&String> = if ctx.thorough() { ls.iter().collect() } else { vec![&ls[pi % 5]] };
-        for l in pick {
+        for (li, l) in pick.into_iter().enumerate() {
             idx += 1;
             if ctx.mine(idx) {
+                // every layout meets every channel (stdin / INPUT file / INPUT and OUTPUT files)
+                CHANNEL.with(|c| c.set((pi / 5 + li) % 3));
                 check_exact(ctx, 2, l, &grids);
             }
         }
@@ -297,7 +305,10 @@ fn run(ctx: &mut Ctx) {
     for p in ["", "1", "12", "1234", "12343412", "1234341221434321", "12343412214343211234", "1.3.\n.4.2\n\n2.4.\n.3.1 trailing text 123", "\u{e9}\u{663}..1"] {
         idx += 1;
         if ctx.mine(idx) {
-            check_exact(ctx, 2, p, &grids);
+            for ch in 0..3 {
+                CHANNEL.with(|c| c.set(ch));
+                check_exact(ctx, 2, p, &grids);
+            }
         }
     }
     // r = 3
@@ -317,15 +328,23 @@ fn run(ctx: &mut Ctx) {
     for p in &r3 {
         idx += 1;
         if ctx.mine(idx) {
+            CHANNEL.with(|c| c.set((idx % 3) as usize));
             check_r3(ctx, p);
         }
     }
     // r = 4 and r = 5: structure of the hint-free output and of one hinted puzzle
     for r in [4usize, 5] {
-        for p in ["".to_string(), format!("{}{}", ".".repeat(r * r * r * r - 3), "123")] {
-            idx += 1;
-            if ctx.mine(idx) {
-                check_structure(ctx, r, &p);
+        // letters and punctuation are blanks whatever the root; single digits 1..9 are givens (the
+        // digit 0 and digits above r^2 are outside the property's domain and not used)
+        let letters: String = "abcdefgABCDEFGxyz_.,-*".chars().cycle().take(r * r * r * r).enumerate().map(|(i, c)| if i % 37 == 5 { char::from_digit((i % 9 + 1) as u32, 10).unwrap_or('1') } else { c }).collect();
+        let spaced: String = letters.chars().collect::<Vec<_>>().chunks(r * r).map(|row| row.iter().map(|c| format!("{c} ")).collect::<String>()).collect::<Vec<_>>().join("\n\n");
+        for p in ["".to_string(), format!("{}{}", ".".repeat(r * r * r * r - 3), "123"), letters, spaced] {
+            for ch in 0..3 {
+                idx += 1;
+                if ctx.mine(idx) {
+                    CHANNEL.with(|c| c.set(ch));
+                    check_structure(ctx, r, &p);
+                }
             }
         }
     }
@@ -334,6 +353,7 @@ fn run(ctx: &mut Ctx) {
 fn replay(ctx: &mut Ctx, c: &Value) {
     let r = c["root"].as_u64().unwrap_or(2) as usize;
     let p = c["puzzle"].as_str().unwrap_or("");
+    CHANNEL.with(|ch| ch.set(c["channel"].as_u64().unwrap_or(0) as usize));
     match r {
         1 => check_exact(ctx, 1, p, &[vec![1u8]]),
         2 => check_exact(ctx, 2, p, &sudoku4_grids()),
